@@ -51,11 +51,17 @@ def _decode_case(args):
                     node = parse_sql('SELECT 1 FROM %s' % text, d).from_table
                 elif cname == 'alias':
                     node = parse_sql('SELECT 1 AS %s' % text, d).targets[0].alias
+                elif cname == 'setvar':
+                    node = parse_sql('SET %s = 1' % text, d).name
+                elif cname == 'setvalue':
+                    node = parse_sql('SET x = %s' % text, d).value
                 cls = type(node).__name__
                 if cls == 'Constant':
                     out.append((d, cname, 'ok', 'const', node.value))
                 elif cls == 'Identifier':
                     out.append((d, cname, 'ok', 'ident', [str(x) for x in node.parts]))
+                elif cls == 'Variable':
+                    out.append((d, cname, 'ok', 'var', [bool(node.is_system_var), node.value]))
                 else:
                     out.append((d, cname, 'ok', 'other:' + cls, None))
             except Exception as e:   # noqa
@@ -68,7 +74,11 @@ def _encode_case(args):
     from mindsdb_sql.parser.ast import Constant, Identifier, Select, BinaryOperation, Tuple, Insert, Update
     res = {}
     try:
-        if kind == 'VAL':
+        if kind == 'VAR':
+            from mindsdb_sql.parser.ast import Variable
+            res['to_string'] = Variable(s_of(payload[1]), is_system_var=payload[0]).to_string()
+            res['in_where'] = Select(targets=[Variable(s_of(payload[1]), is_system_var=payload[0])]).to_string()
+        elif kind == 'VAL':
             v = s_of(payload)
             res['to_string'] = Constant(v).to_string()
             res['in_where'] = Select(targets=[Identifier('a')], from_table=Identifier('t'),
@@ -118,6 +128,9 @@ def run(ctx):
     strs = [(v[1], v[2], v[3], v[4]) for v in find_prints(r.out, 'STR')]
     ids = [(v[1], v[2], v[3]) for v in find_prints(r.out, 'ID')]
     vals = [v[1] for v in find_prints(r.out, 'VAL')]
+    vrs = [(v[1], v[2], v[3], v[4]) for v in find_prints(r.out, 'VAR')]
+    if not vrs:
+        raise MachineryError('LexemeMC emitted no variable cases')
     encparts = [v[1] for v in find_prints(r.out, 'PARTS')]
     if not strs or not ids or not vals:
         raise MachineryError('LexemeMC emitted no cases')
@@ -165,6 +178,26 @@ def run(ctx):
                               'identifier parts differ from the written path (case, splitting or characters)',
                               {'text': text, 'dialect': d, 'context': cname, 'expected': exp, 'got': got},
                               pin=('%s|%s|%s' % (text, d, cname), got))
+    # ---------------- decode: variables (@name, @@name and the three delimited forms)
+    work = [('VAR', s_of(t), [bool(sysv), s_of(nm)], ['select', 'where', 'setvar', 'setvalue']) for q, sysv, t, nm in vrs]
+    res = pmap(_decode_case, work, chunksize=64)
+    n_var = 0
+    for (q, sysv, t, nm), (_, text, exp, _c), rs in zip(vrs, work, res):
+        for d, cname, status, what, got in rs:
+            if status != 'ok' or what != 'var':
+                n_rej += 1
+                continue
+            n_eval += 1
+            n_var += 1
+            if got != exp:
+                form = {0: 'bare', 39: 'sq', 34: 'dq', 96: 'bq'}[q]
+                ctx.violation('decode-variable:%s:%s%s' % (d, form, ':system' if sysv else ''),
+                              'the tree does not hold the variable name the text denotes',
+                              {'text': text, 'dialect': d, 'context': cname, 'expected': exp, 'got': got},
+                              pin=('%s|%s|%s' % (text, d, cname), got))
+    ctx.cov['variable_decodings'] = n_var
+    if not n_var:
+        raise MachineryError('no variable form was accepted by any dialect')
     # ---------------- numbers (python oracle)
     from mindsdb_sql import parse_sql
     for d in DIALECTS:
@@ -191,7 +224,7 @@ def run(ctx):
     # ---------------- encode: printed constants and identifiers judged by the scanner (TLC)
     # identifier printing is done in ONE process, in the emitted order and again in reverse order, so that a
     # printer whose answer depends on what it printed before shows up (both runs are judged)
-    enc_in = [('VAL', v) for v in vals]
+    enc_in = [('VAL', v) for v in vals] + [('VAR', [bool(sysv), nm]) for q, sysv, t, nm in vrs]
     enc = pmap(_encode_case, enc_in, chunksize=128)
     seq = [('PARTS', p) for p in encparts]
     enc_in += seq + list(reversed(seq))
@@ -206,7 +239,12 @@ def run(ctx):
                           {'kind': kind, 'payload': payload, 'error': e['exc']})
             continue
         txt = e['to_string']
-        if kind == 'VAL':
+        if kind == 'VAR':
+            for tx in (txt, e['in_where'][len('SELECT '):] if e['in_where'].startswith('SELECT ') else e['in_where']):
+                traces.append({'kind': 'var', 'style': 'sys' if payload[0] else 'user', 'text': [ord(ch) for ch in tx],
+                               'value': payload[1], 'parts': []})
+                meta.append((kind, payload, tx))
+        elif kind == 'VAL':
             traces.append({'kind': 'str', 'style': 'lib_sq', 'text': [ord(ch) for ch in txt], 'value': payload, 'parts': []})
             meta.append((kind, payload, txt))
             w = e['in_where']
@@ -230,7 +268,13 @@ def run(ctx):
         v = ver[i + 1]
         if v == 'ok':
             continue
-        if kind == 'VAL':
+        if kind == 'VAR':
+            nm = s_of(payload[1])
+            cls = 'backquote-in-name' if '`' in nm else 'other'
+            ctx.violation('encode-variable:%s' % cls, 'the printed variable does not denote the variable\'s name',
+                          {'name': nm, 'system': payload[0], 'printed': txt, 'verdict': v},
+                          pin=('var|%s|%s' % (payload[0], nm), [txt, v]))
+        elif kind == 'VAL':
             s = s_of(payload)
             ctx.violation('encode:to_string',
                           'the printed literal does not denote the constant value under the library\'s own lexical rules',
